@@ -345,6 +345,54 @@ def nested_conditional_family(quick):
     return out
 
 
+def assignment_value_family():
+    """Every assigning form (setv, setx, a let binding) whose value is a form that leaves its result in a
+    compiler temporary (if / cond / when with statement branches, try with and without finally, and / or
+    with a statement operand, with), directly or under not / a list / and, and with the assignment's own
+    value consumed in every way (as the program's value, as an argument next to a read of the target,
+    read afterwards).  The compiler renames such temporaries to the target instead of copying them."""
+    E = lambda: T("eff", 0)
+    V = lambda i: T("var", i)
+    S = lambda: T("do", 0, [T("setv", 0, [V(3), E()]), E()])          # needs statements
+    values = {
+        "if-s": lambda: T("if", 0, [E(), S(), E()]),
+        "if-s-else": lambda: T("if", 0, [E(), E(), S()]),
+        "when-s": lambda: T("when", 0, [E(), S()]),
+        "cond-s": lambda: T("cond", 0, [E(), S(), E(), E()]),
+        "try": lambda: T("try", 0, [E(), T("except", 0, [E()], ts=[1], hv=0)]),
+        "try-named": lambda: T("try", 0, [E(), T("except", 0, [V(2), E()], ts=[1, 3], hv=1)]),
+        "try-finally": lambda: T("try", 0, [E(), T("finally", 0, [E()])]),
+        "try-both": lambda: T("try", 0, [E(), T("except", 0, [E()], ts=[1], hv=0), T("finally", 0, [E()])]),
+        "and-s": lambda: T("and", 0, [E(), S()]),
+        "or-s": lambda: T("or", 0, [E(), S(), E()]),
+        "do-s": lambda: S(),
+        "setx": lambda: T("setx", 0, [V(2), T("if", 0, [E(), S(), E()])]),
+        "while": lambda: T("while", 0, [E(), E()]),
+    }
+    wrappers = {
+        "plain": lambda v: v,
+        "not": lambda v: T("not", 0, [v]),
+        "not-not": lambda v: T("not", 0, [T("not", 0, [v])]),
+        "list": lambda v: T("args", "list", [v]),
+        "and": lambda v: T("and", 0, [v, E()]),
+        "if-test": lambda v: T("if", 0, [v, E(), E()]),
+    }
+    out = []
+    for vn, mk in values.items():
+        for wn, wr in wrappers.items():
+            val = lambda: wr(mk())
+            progs = [
+                T("do", 0, [T("setx", 0, [V(1), val()])]),                                   # the value of setx
+                T("do", 0, [T("args", "list", [T("setx", 0, [V(1), val()]), V(1)])]),             # ... as an argument
+                T("do", 0, [T("setv", 0, [V(1), val()]), V(1)]),
+                T("do", 0, [T("setv", 0, [V(1), E()]), T("args", "list", [T("setv", 0, [V(1), val()]), V(1)])]),
+                T("do", 0, [T("let", 1, [V(1), val(), T("args", "list", [V(1), E()])])]),
+                T("do", 0, [T("setv", 0, [V(1), E()]), T("setx", 0, [V(1), T("args", "list", [V(1), val()])]), V(1)]),
+            ]
+            out += progs
+    return out
+
+
 def main_c01(run):
     rng = random.Random(run.seed)
     q = run.quick
@@ -352,6 +400,10 @@ def main_c01(run):
     nfam = nested_conditional_family(q)
     ncases = [observe(t, sc, {}, {}, nv, tag="nested-if") for t, sc in nfam]
     decide(run, ncases, nv, "c01-nested-if", explore_small=0)
+    afam = assignment_value_family()
+    acases = build_cases(run, afam + [wrap_in_fn(t, 4) for t in afam], rng, nv, fault_limit=2 if q else 5, scripts=1 if q else 3)
+    run.log(f"assignment-value family: {len(afam)} programs at module and function level, {len(acases)} executions")
+    decide(run, acases, nv, "c01-assign-value", explore_small=0)
     fam = truthiness_timing_family()
     fcases = [observe(t, sc, {}, {}, nv, tag="box") for t, sc in fam] + \
              [observe(wrap_in_fn(t, 4), sc, {}, {}, nv, tag="box in fn") for t, sc in fam]
@@ -365,23 +417,23 @@ def main_c01(run):
     trees = []
     for size in ([1, 2, 3, 4] if q else [1, 2, 3, 4, 5]):
         xs = [T("do", 0, [x]) for x in en.exprs(size)]
-        if q and len(xs) > 2500:
-            xs = rng.sample(xs, 2500)
+        if len(xs) > (2500 if q else 12000):
+            xs = rng.sample(xs, 2500 if q else 12000)
         trees += xs
     run.log(f"exhaustive part: {len(trees)} programs")
-    cases = build_cases(run, trees, rng, nv, fault_limit=2 if q else 4)
+    cases = build_cases(run, trees, rng, nv, fault_limit=2 if q else 3)
     run.log(f"  {len(cases)} executions")
     us = decide(run, cases, nv, "c01-small", explore_small=8 if q else 9)
     for c in us[:2]:
         run.sample(sample_of(c))
     # deep random programs, module level and function level
     deep = []
-    for i in range(250 if q else 6000):
+    for i in range(250 if q else 2500):
         t = random_program(rng, ALL_FORMS, rng.choice([3, 4, 5]), nv=3)
         deep.append(t)
         if i % 3 == 0:
             deep.append(wrap_in_fn(t, 4))
-    cases = build_cases(run, deep, rng, nv, fault_limit=3 if q else 6, pairs=not q)
+    cases = build_cases(run, deep, rng, nv, fault_limit=3 if q else 4, pairs=not q)
     run.log(f"deep part: {len(deep)} programs, {len(cases)} executions")
     us = decide(run, cases, nv, "c01-deep")
     big = sorted(us, key=lambda c: -len(c.obs["log"]))[:3]
@@ -495,7 +547,7 @@ def main_c02(run):
                                           f"the macro form's value {base.obs['out']}",
                                           {"text": base.text, "script": {}, "fault": {}, "supp": {}})
     # higher arities by random sampling
-    for _ in range(300 if q else 30000):
+    for _ in range(300 if q else 6000):
         n = rng.randint(5, 8)
         op = rng.choice(["and", "or"])
         script = {}
@@ -627,11 +679,104 @@ def hoist_family(run):
             run.cov["traces_validated_against_impl"] += 1
 
 
+SHADOW_BINDERS = {
+    "param": '(setv (get R "in") ((fn [x] x) 5))',
+    "posonly": '(setv (get R "in") ((fn [x /] x) 5))',
+    "kwonly": '(setv (get R "in") ((fn [* x] x) :x 5))',
+    "default": '(setv (get R "in") ((fn [[x 5]] x)))',
+    "default2": '(setv (get R "in") ((fn [[x 9]] x) 5))',
+    "rest": '(setv (get R "in") (get ((fn [#* x] x) 5) 0))',
+    "kwrest": '(setv (get R "in") (get ((fn [#** x] x) :k 5) "k"))',
+    "defn-param": '(defn hyv-f [x] x) (setv (get R "in") (hyv-f 5))',
+    "defn-posonly": '(defn hyv-f [hyv-a x /] x) (setv (get R "in") (hyv-f 0 5))',
+    "defn-kwonly": '(defn hyv-f [hyv-a * [x 5]] x) (setv (get R "in") (hyv-f 0))',
+    "defn-rest": '(defn hyv-f [hyv-a #* x] x) (setv (get R "in") (get (hyv-f 0 5) 0))',
+    "let": '(setv (get R "in") (let [x 5] x))',
+    "let-unpack": '(setv (get R "in") (let [[x hyv-y] [5 6]] x))',
+    "setv": "(setv x 5)", "setx": "(setx x 5)", "aug": "(+= x 4)", "unpack": "(setv [x hyv-y] [5 6])",
+    "for": '(for [x [5]] (setv (get R "in") x))',
+    "with": '(with [x (cm 5)] (setv (get R "in") x))',
+    "match": '(match 5 x (setv (get R "in") x))',
+    "match-as": '(match 5 _ :as x (setv (get R "in") x))',
+    "lfor": '(setv (get R "in") (get (lfor x [5] x) 0))',
+    "sfor": '(setv (get R "in") (.pop (sfor x [5] x)))',
+    "gfor": '(setv (get R "in") (next (gfor x [5] x)))',
+    "dfor": '(setv (get R "in") (get (dfor x [5] 0 x) 0))',
+    "compr-setv": '(setv (get R "in") (get (lfor hyv-i [0] :setv x 5 x) 0))',
+    "iter-read": '(setv (get R "in") (get (lfor x [(+ x 4)] x) 0))',
+    "compr-unpack": '(setv (get R "in") (get (lfor [x hyv-y] [[5 6]] x) 0))',
+    "lfor-stmt": '(setv (get R "in") (get (lfor x [5] :do (setv hyv-q 0) x) 0))',
+    "iter-read-stmt": '(setv (get R "in") (get (lfor x [(+ x 4)] :do (setv hyv-q 0) x) 0))',
+    "except": '(try (raise (ValueError 5)) (except [x ValueError] (setv (get R "in") (get x.args 0))))',
+    "defn": "(defn x [] 7)", "defclass": "(defclass x [] (setv v 7))", "import-as": "(import hyv_const [c7 :as x])",
+}
+SHADOW_WRAPPERS = {
+    "direct": "{}", "do": "(do {})", "if": "(if True (do {}) None)", "other-let": "(let [hyv-z 0] {})",
+    "try-body": "(try {} (finally None))", "when-value": "(setv hyv-w (when True {} 1))",
+}
+
+
+def shadow_program(rec):
+    b = SHADOW_WRAPPERS[rec["w"]].format(SHADOW_BINDERS[rec["b"]])
+    body = f'(setv x 0)\n(let [x 1]\n  {b}\n  (setv (get R "after") (val x)))\n(setv (get R "out") (val x))'
+    if rec["lvl"] == "fn":
+        body = f"(defn hyv-top []\n{body})\n(hyv-top)"
+    return body + "\n"
+
+
+def _shadow_val(v):
+    if isinstance(v, type):
+        return v.v
+    return v() if callable(v) else v
+
+
+def shadow_family(run):
+    """a let-bound name rebound by every binding construct: HyShadow.tla says what is read inside, after, and outside"""
+    import contextlib
+    import sys
+    import types
+    import hy
+    r = tlc.run("HyShadow", tlc.cfg(invariants=["LexicalRestore", "AssignUpdatesBinding", "OuterUntouched",
+                                                "HoistReachesPythonScope", "Export"]),
+                run.work, workers=8, label="shadow")
+    if r.violated:
+        raise MachineryError(f"HyShadow: {r.violated} violated on the specification")
+    run.add_tlc(r, "HyShadow: 34 constructs that bind a let-bound name x 2 levels x 6 surrounding forms; the reads inside, "
+                   "after the construct and after the let")
+    rows = r.ex("CASE")
+    if {x["b"] for x in rows} != set(SHADOW_BINDERS):
+        raise MachineryError("HyShadow and the harness disagree on the binders")
+    m = types.ModuleType("hyv_const")
+    m.c7 = 7
+    sys.modules["hyv_const"] = m
+
+    @contextlib.contextmanager
+    def cm(v):
+        yield v
+    for rec in sorted(rows, key=lambda x: (x["b"], x["lvl"], x["w"])):
+        text = shadow_program(rec)
+        run.case("shadow:" + text)
+        want = {k: rec[f] for k, f in (("in", "rin"), ("after", "after"), ("out", "out")) if rec[f] != 99}
+        mod = types.ModuleType("hyv_shadow")
+        mod.__dict__.update(R={}, cm=cm, val=_shadow_val)
+        try:
+            hy.eval(hy.read_many(text), mod.__dict__, module=mod)
+            got = dict(mod.R)
+        except Exception as x:
+            got = f"{type(x).__name__}: {x}"
+        if got != want:
+            run.violation("shadow:" + text, f"{rec['b']} ({rec['cls']}) of a let-bound name at {rec['lvl']} level: reads {got}, "
+                          f"the documentation gives {want}; program:\n{text}", {"text": text, "spec": rec})
+        else:
+            run.cov["traces_validated_against_impl"] += 1
+
+
 def main_c06(run):
     rng = random.Random(run.seed)
     q = run.quick
     nv = 4
     hoist_family(run)
+    shadow_family(run)
     fam = c06_rebinding_family(rng, q)
     run.log(f"rebinding family: {len(fam)} programs")
     fcases = build_cases(run, fam + [wrap_in_fn(t, 4) for t in fam[:: (4 if q else 1)]], rng, nv, fault_limit=0)
@@ -643,8 +788,8 @@ def main_c06(run):
     trees = []
     for size in ([2, 3, 4, 5] if q else [2, 3, 4, 5, 6]):
         xs = [x for x in en.exprs(size) if "let" in render(x)]
-        if len(xs) > (2500 if q else 60000):
-            xs = rng.sample(xs, 2500 if q else 60000)
+        if len(xs) > (2500 if q else 12000):
+            xs = rng.sample(xs, 2500 if q else 12000)
         trees += [wrap_reads(T("do", 0, [clone(x)])) for x in xs]
     run.log(f"exhaustive let programs: {len(trees)}")
     cases = build_cases(run, trees, rng, nv, fault_limit=0)
@@ -657,7 +802,7 @@ def main_c06(run):
     deep_forms = {"let", "let2", "fn", "defn", "setv", "setv2", "setx", "var", "do", "call", "lit", "list",
                   "if", "for", "eff"}
     deep = []
-    for i in range(300 if q else 8000):
+    for i in range(300 if q else 2500):
         t = wrap_reads(random_program(rng, deep_forms, rng.choice([3, 4, 5]), nv=3), 0.8, rng)
         deep.append(t)
         if i % 2 == 0:
@@ -749,26 +894,26 @@ def main_c09(run):
     trees = []
     for size in ([3, 4, 5] if q else [3, 4, 5, 6]):
         xs = [x for x in en.exprs(size) if x.k in ("try", "with") or "(try" in render(x) or "(with" in render(x)]
-        cap = 2000 if q else 40000
+        cap = 2000 if q else 8000
         if len(xs) > cap:
             xs = rng.sample(xs, cap)
         trees += [T("do", 0, [x]) for x in xs]
     run.log(f"exhaustive try/with programs: {len(trees)}")
-    cases = build_cases(run, trees, rng, nv, fault_limit=3 if q else 8, pairs=not q)
+    cases = build_cases(run, trees, rng, nv, fault_limit=3 if q else 5, pairs=not q)
     us = decide(run, cases, nv, "c09-small", explore_small=9)
     for c in us[-2:]:
         run.sample(sample_of(c))
     deep_forms = {"try", "with", "raise", "eff", "eff1", "do", "lit", "var", "setv", "if", "list", "fn", "call",
                   "return", "while", "break", "for", "when"}
     deep = []
-    for i in range(250 if q else 8000):
+    for i in range(250 if q else 2000):
         t = random_program(rng, deep_forms, rng.choice([3, 4]), nv=3)
         if "(try" not in render(t) and "(with" not in render(t):
             continue
         deep.append(t)
         if i % 3 == 0:
             deep.append(wrap_in_fn(t, 4))
-    cases = build_cases(run, deep, rng, nv, fault_limit=4 if q else 10, pairs=True)
+    cases = build_cases(run, deep, rng, nv, fault_limit=4 if q else 6, pairs=True)
     run.log(f"deep try/with programs: {len(deep)}, {len(cases)} executions")
     us = decide(run, cases, nv, "c09-deep")
     for c in sorted(us, key=lambda c: -len(c.obs["log"]))[:2]:
